@@ -1,0 +1,110 @@
+//go:build verif
+
+// Contracts for the verification engine in /verif (comment-only file; it is
+// compiled only with the build tag "verif" and contains no code).
+
+package overloader
+
+// ---- C18: connection limiter ------------------------------------------------
+// #holders = number of admitted connections that have not released their slot.
+// tmp counts every holder plus every taker that has incremented tmp and not yet
+// decided; so holders <= tmp at every atomic step, and a taker is admitted only
+// if the value ITS OWN increment produced is <= lim: holders never exceed lim.
+// Every access is one atomic add/load, so each function's net effect on the
+// counters is independent of interleavings (stated assumption).
+//@ ghost field (*connLimiter).holders int
+//@ spec fn limInv(c *connLimiter) bool = c.#holders >= 0 && c.#holders <= c.now && c.now <= c.tmp
+
+//@ func (*connLimiter).take
+//@   property C18
+//@   requires limInv(c) && c.tmp < 2147483647
+//@   modifies c.tmp, c.now
+//@   ghostset c.#holders = result ? old(c.#holders) + 1 : old(c.#holders)
+//@   ensures[admit-within-limit] result ==> c.#holders <= c.lim
+//@   ensures[inv] limInv(c)
+//@   ensures[admit-counts] result ==> c.tmp == old(c.tmp) + 1 && c.now == old(c.now) + 1
+//@   ensures[reject-consumes-nothing] !result ==> c.tmp == old(c.tmp) && c.now == old(c.now)
+//@   ensures[reject-only-when-full] !result ==> old(c.tmp) + 1 > c.lim
+
+//@ func (*connLimiter).release
+//@   property C18
+//@   requires limInv(c) && c.now > -2147483648
+//@   requires[holder] c.#holders >= 1
+//@   modifies c.tmp, c.now
+//@   ghostset c.#holders = old(c.#holders) - 1
+//@   ensures[inv] limInv(c)
+//@   ensures[released-once] c.tmp == old(c.tmp) - 1 && c.now == old(c.now) - 1
+
+//@ func (*connLimiter).update
+//@   property C18
+//@   modifies c.lim
+//@   ensures[limit-set] c.lim == maxConn
+//@   ensures[count-kept] c.tmp == old(c.tmp) && c.now == old(c.now)
+
+//@ func newConnLimiter
+//@   property C18
+//@   modifies nothing
+//@   ensures[fresh-empty] fresh(result) && result.lim == maxConn && result.now == 0 && result.tmp == 0
+
+// ---- C18: token bucket (logical time: one updateToken call = one tick) -----
+//@ func (*qpsLimiter).take
+//@   property C18
+//@   modifies q.tokens
+//@   ensures[admit-needs-token] result ==> old(q.tokens) >= 1 && q.tokens == old(q.tokens) - 1
+//@   ensures[reject-when-empty] !result ==> old(q.tokens) <= 0
+//@   ensures[never-refills] q.tokens <= old(q.tokens)
+
+//@ func (*qpsLimiter).updateToken
+//@   property C18
+//@   requires q.once >= 1 && q.limit >= 1 && q.once <= 1073741823 && q.limit <= 1073741823 && q.tokens <= q.limit
+//@   modifies q.tokens
+//@   ensures[capped] q.tokens <= q.limit || q.tokens == q.once
+//@   ensures[refill-bounded] q.tokens <= (old(q.tokens) < 0 ? 0 : old(q.tokens)) + q.once
+//@   ensures[refills] q.tokens >= 1
+
+// ---- C18: the plugin hooks --------------------------------------------------
+// A session holds a slot iff it is a key of o.slotHolders, whose value is the
+// limiter that granted the slot. #marked(l) counts the entries pointing at l;
+// the hooks keep #holders(l) == #marked(l), so a slot is released only by its
+// holder and exactly once, whoever else the framework runs the disconnect hook
+// for (it also runs it for connections an accept hook rejected).
+//@ ghost field (*connLimiter).marked int
+//@ spec fn limOK(l *connLimiter) bool = limInv(l) && l.#holders == l.#marked && l.tmp < 2147483647 && l.now > -2147483648
+
+//@ func (*Overloader).takeConnFor
+//@   property C18
+//@   let l = old(o.connLimiter)
+//@   requires l != nil ==> limOK(l)
+//@   requires[new-session] !o.slotHolders.#skeys[sess]
+//@   ghostset l.#marked = (result && l != nil) ? old(l.#marked) + 1 : old(l.#marked)
+//@   ensures[within-limit] result && l != nil ==> l.#holders <= l.lim
+//@   ensures[slot-recorded] o.slotHolders.#skeys[sess] <==> (result && l != nil)
+//@   ensures[granted-by] result && l != nil ==> o.slotHolders.#svals[sess] == iface(type(*connLimiter), l)
+//@   ensures[balanced] l != nil ==> limInv(l) && l.#holders == l.#marked
+//@   ensures[reject-consumes-nothing] !result && l != nil ==> l.tmp == old(l.tmp) && l.now == old(l.now) && l.#holders == old(l.#holders)
+
+//@ func (*Overloader).releaseConnFor
+//@   property C18
+//@   let held = old(o.slotHolders.#skeys[sess])
+//@   let lr = as(old(o.slotHolders.#svals[sess]), type(*connLimiter))
+//@   requires[limiters-consistent] forall x *connLimiter :: {x.#marked} x != nil ==> limOK(x)
+//@   requires[typed] o.slotHolders.#skeys[sess] ==> istype(o.slotHolders.#svals[sess], type(*connLimiter)) && as(o.slotHolders.#svals[sess], type(*connLimiter)) != nil
+//@   ghostset lr.#marked = held ? old(lr.#marked) - 1 : old(lr.#marked)
+//@   ensures[released-by-holder-only] !held ==> unchanged()
+//@   ensures[released-once] held ==> lr.#holders == old(lr.#holders) - 1 && lr.tmp == old(lr.tmp) - 1 && !o.slotHolders.#skeys[sess]
+//@   ensures[balanced] held ==> limInv(lr) && lr.#holders == lr.#marked
+
+//@ func (*Overloader).PostAccept
+//@   property C18
+//@   let l = old(o.connLimiter)
+//@   requires l != nil ==> limOK(l)
+//@   requires[new-session] !o.slotHolders.#skeys[sess]
+//@   ensures[rejected-holds-nothing] result != nil ==> !o.slotHolders.#skeys[sess]
+//@   ensures[admitted-within-limit] result == nil && l != nil ==> l.#holders <= l.lim && o.slotHolders.#skeys[sess]
+
+//@ func (*Overloader).PostDisconnect
+//@   property C18
+//@   requires[limiters-consistent] forall x *connLimiter :: {x.#marked} x != nil ==> limOK(x)
+//@   requires[typed] o.slotHolders.#skeys[sess] ==> istype(o.slotHolders.#svals[sess], type(*connLimiter)) && as(o.slotHolders.#svals[sess], type(*connLimiter)) != nil
+//@   ensures[no-slot-no-release] !old(o.slotHolders.#skeys[sess]) ==> unchanged()
+//@   ensures[slot-gone] !o.slotHolders.#skeys[sess]
